@@ -197,7 +197,8 @@ class C18(object):
             for n in names:
                 k = rnd.choice(["int", "float", "float", "str"])
                 if k == "int":
-                    pars[n] = rnd.choice([0, 1, -1, 225, rnd.randint(-10 ** 9, 10 ** 9), 2 ** 53])
+                    pars[n] = rnd.choice([0, 1, -1, 225, rnd.randint(-10 ** 9, 10 ** 9), 2 ** 53, 2 ** 53 + 1, 1234567890123456789,
+                                          -(2 ** 62) - 3])
                 elif k == "float":
                     pars[n] = rnd.choice([0.0, -0.0, 1.0, 90.0, 1e12, 1e22, 1e-12, 3.0000000001, rnd.uniform(-1, 1),
                                           rnd.uniform(-1e6, 1e6), 5e-324, 0.1 + 0.2])
